@@ -552,8 +552,8 @@ fn main() {
     ctx.level("model_checking");
     ctx.rule("E1: every shape triple (r,k,c) in 0..=8 for products, every shape (r,c) in 0..=8 for all other operators/editors (each row/column/offset argument enumerated), every resize (r,c)->(r',c') in 0..=8; exact rationals with pairwise distinct entries. E2: breadth-first exploration of all editing histories from 2x3, 3x2, 1x1, 0x0 up to the stated depth, state = full matrix content. Non-trivial: non-square shapes, empty shapes, wide products, histories reaching wide/tall/empty states.");
     ctx.assume("identities are polynomial in the entries: one generic (pairwise distinct, mixed sign, fractional) filling per shape decides index arithmetic; value-dependent behaviour does not exist in these operators");
-    ctx.assume("shapes above 8 and histories longer than the stated depth are not covered");
-    ctx.require(&["wide product", "tall product", "empty result", "nonsquare in-place transpose", "wide state", "tall state", "empty state"]);
+    ctx.assume("shapes above 8 are covered through a family of 400 shape pairs with dimensions up to 40 only; histories longer than the stated depth are not covered");
+    ctx.require(&["wide product", "tall product", "empty result", "nonsquare in-place transpose", "wide state", "tall state", "empty state", "shape with a dimension above 8"]);
     let n = 9u64;
     ctx.lattice(
         "product shapes (r,k,c) in 0..=8",
@@ -603,6 +603,39 @@ fn main() {
             judge(acc, idx, || format!("resize {}x{} -> {}x{}", r, c, r2, c2), || resize_case(r, c, r2, c2));
         },
     );
+    {
+        // shapes beyond the exhaustive range: sizes around typical block / unrolling boundaries
+        let big: Vec<usize> = vec![9, 10, 12, 15, 16, 17, 31, 32, 33, 40];
+        let nb = big.len() as u64;
+        let bg = big.clone();
+        ctx.lattice(
+            &format!("larger shapes: products (r,k,c) and operators/editors (r,c) with r,k,c from {:?} and the small partners 1, 2, 7", big),
+            nb * nb * 4,
+            |idx| format!("{}", idx),
+            |idx, acc| {
+                let small = [1usize, 2, 7];
+                let a = bg[(idx / (nb * 4)) as usize];
+                let b = bg[((idx / 4) % nb) as usize];
+                let v = (idx % 4) as usize;
+                let (r, k, c) = match v {
+                    0 => (a, b, small[(a + b) % 3]),
+                    1 => (small[(a + b) % 3], a, b),
+                    2 => (a, small[(a + b) % 3], b),
+                    _ => (a, b, (a + b) / 2),
+                };
+                acc.nontriv("shape with a dimension above 8");
+                judge(acc, idx, || format!("large ({}x{})*({}x{})", r, k, k, c), || {
+                    product_case(r, k, c)?;
+                    if v == 0 {
+                        unary_case(a, b)?;
+                        resize_case(a, b, b, small[(a + b) % 3])?;
+                        resize_case(small[(a + b) % 3], a, a, b)?;
+                    }
+                    Ok(())
+                });
+            },
+        );
+    }
     ctx.lattice(
         "norms on integer-valued f64, shapes 0..=8 x 2 patterns",
         n * n * 2,
